@@ -90,9 +90,11 @@ Definition num2bin (x : bytes) (n : Z) : option bytes :=
 
 (* ------------------------------------------------------------------ *)
 (* opcodes on (main, alt); None = the script fails.
-   `lim`: the variant in which OP_SIZE and OP_DEPTH fail when the number they would push exceeds
-   2^31-1 (NOT Bitcoin SV: the library routes these two through an i32; an item of 2 GiB or a stack
-   of 2^31 entries is needed to tell the difference).  The specification proper is `lim = false`. *)
+   `lim`: the variant with the library's machine-word limits: OP_SIZE and OP_DEPTH fail when the
+   number they would push exceeds 2^31-1 (the library routes these two through an i32), and the
+   index / position of OP_PICK, OP_ROLL, OP_SPLIT must fit a 64-bit usize.  NOT Bitcoin SV, but an
+   item of 2 GiB, a stack of 2^31 entries or an item of 2^64 bytes is needed to tell the difference.
+   The specification proper is `lim = false`. *)
 Definition un (f : Z -> Z) (s : stk) : option stk :=
   match s with x :: r => Some (num_enc (f (num_of x)) :: r) | _ => None end.
 Definition bin (f : Z -> Z -> Z) (s : stk) : option stk :=
@@ -107,6 +109,7 @@ Definition bitop (f : N -> N -> N) (s : stk) : option stk :=
   | _ => None
   end.
 Definition too_big (lim : bool) (n : nat) : bool := lim && (2147483647 <? Z.of_nat n).
+Definition over_usize (lim : bool) (k : Z) : bool := lim && (18446744073709551615 <? k).
 
 Definition main_op (lim : bool) (o : N) (s : stk) : option stk :=
   match o with
@@ -125,14 +128,14 @@ Definition main_op (lim : bool) (o : N) (s : stk) : option stk :=
   | 121%N (* PICK *) =>
       match s with
       | n :: r => let k := num_of n in
-                  if (k <? 0) || (Z.of_nat (length r) <=? k) then None
+                  if (k <? 0) || (Z.of_nat (length r) <=? k) || over_usize lim k then None
                   else match nth_error r (Z.to_nat k) with Some x => Some (x :: r) | None => None end
       | _ => None
       end
   | 122%N (* ROLL *) =>
       match s with
       | n :: r => let k := num_of n in
-                  if (k <? 0) || (Z.of_nat (length r) <=? k) then None
+                  if (k <? 0) || (Z.of_nat (length r) <=? k) || over_usize lim k then None
                   else match nth_error r (Z.to_nat k) with
                        | Some x => Some (x :: firstn (Z.to_nat k) r ++ skipn (S (Z.to_nat k)) r)
                        | None => None
@@ -152,7 +155,7 @@ Definition main_op (lim : bool) (o : N) (s : stk) : option stk :=
   | 127%N (* SPLIT *) =>
       match s with
       | n :: x :: r => let k := num_of n in
-                       if (k <? 0) || (Z.of_nat (length x) <? k) then None
+                       if (k <? 0) || (Z.of_nat (length x) <? k) || over_usize lim k then None
                        else Some (skipn (Z.to_nat k) x :: firstn (Z.to_nat k) x :: r)
       | _ => None
       end
